@@ -26,6 +26,7 @@ NoCall == [id |-> 0, op |-> "", n |-> 0, sz |-> 0, al |-> 0, h |-> 0]
 FreshState ==
   [comp |-> [name |-> "", fb |-> FALSE, trk |-> FALSE, mixed |-> FALSE, stk |-> FALSE, deep |-> FALSE, composable |-> FALSE,
              mxn |-> 0, mxa |-> 0, mxal |-> 0],
+   upOut |-> 0,        \* upstream blocks taken and not yet returned since the execution began
    ups |-> <<>>,       \* upstream blocks taken ("ua") / returned ("uf") since the composition exists: [k, sz]
    grs |-> <<>>,       \* growth / shrinking callbacks of a deep tracker, same shape
    call |-> NoCall,
@@ -80,7 +81,7 @@ OnTrk(e) ==
 \* with the size of the block (blocks taken at construction and returned by the destructor are not reported:
 \* the tracker is attached after construction and detached before destruction)
 DeepOk(where) == Chk(~st.comp.deep \/ st.ups = st.grs, "C09", "TrackerSeesEveryGrowthOnce", <<where, st.ups, st.grs>>)
-OnUp(e) == Result([st EXCEPT !.ups = Append(@, [k |-> e.e, sz |-> e.sz])], {})
+OnUp(e) == Result([st EXCEPT !.ups = Append(@, [k |-> e.e, sz |-> e.sz]), !.upOut = IF e.e = "ua" THEN @ + 1 ELSE @ - 1], {})
 
 \* threshold segregators: a request of at most the threshold (count * size for arrays) goes to the segregatable,
 \* anything bigger to the next one; the thresholds are those the driver builds the compositions with
@@ -170,7 +171,10 @@ OnSret(e) ==
                  [id |-> e.id, r |-> e.r, h |-> e.h, b |-> e.b, off |-> e.off, len |-> e.n * e.sz, mis |-> e.mis,
                   fn0 |-> -1, fn1 |-> -1, bad |-> 0])
 
-OnEnd(e) == Result(st, Chk(e.leaf_live = 0 /\ st.leafLive = {}, "C09", "EverythingReleasedToLeaves", <<e.leaf_live>>))
+\* the composition has been destroyed: library allocators inside it (pools behind a fallback, deeply tracked pools
+\* and stacks) have given every block back to the instrumented upstream
+OnEnd(e) == Result(st, Chk(e.leaf_live = 0 /\ st.leafLive = {}, "C09", "EverythingReleasedToLeaves", <<e.leaf_live>>)
+                       \cup Chk(st.upOut = 0, "C09", "UpstreamBlocksReturnedAtEnd", <<st.comp.name, st.upOut>>))
 
 Apply(e) ==
   CASE e.e = "comp" -> OnComp(e)
